@@ -42,6 +42,11 @@ def gen_cases(tier, seed):
             d["max_errors"] = r.choice([0, None])
         out.append(d)
     out.extend(preempt.gen_descs(tier, seed, ID))  # deterministic single-preemption enumeration (vmon/preempt.py)
+    for i in range(max(30, n // 40)):
+        s = env.seed_for(seed, ID, tier, "cyclic", i)
+        r = random.Random(env.seed_for(s, "descriptor"))
+        out.append({"seed": s, "mode": "cyclic", "n": r.randint(3, 16), "W": r.choice([1, 2, 4]), "sched": r.choice(["default", "random"]), "perturb": "none", "delays": "none",
+                    "family": r.choice(["layers", "join", "tree", "random", "disconnected"])})
     out.extend(preempt.gen_descs2(tier, seed, ID, pairs_quick=90))  # (k1, k2) pairs of two preemptions: lost updates / double releases
     for i in range(max(20, n // 40)):
         # "no call is executed more than once per attempt allowed by retry": several calls sharing one function object / call targets that are
@@ -51,6 +56,34 @@ def gen_cases(tier, seed):
         out.append({"seed": s, "mode": r.choice(["retry_shared", "retry_callables"]), "n": r.randint(2, 7), "W": r.choice([1, 2, 4]), "sched": r.choice(["default", "random"]),
                     "attempts": r.choice([2, 3, 4])})
     return out
+
+
+def run_cyclic(desc):
+    """A plan whose needed part contains a dependency cycle (closed with add_dependency), next to plenty of ordinary source calls. Whether
+    and how the cycle is reported is C07's business; C04's is this: IF run returns normally, it has executed exactly what the output needs."""
+    import hashlib
+
+    from vmon import ir as irmod
+
+    rng = random.Random(desc["seed"])
+    ir = irmod.gen_ir(rng, desc["n"], rich=False, cfg={"out": "all"})
+    calls = ir.harness_calls()
+    preds = ir.preds()
+    pairs = [(a, b) for b in calls for a in ir.ancestors([b], preds) if a != b and ir.nodes[a].kind == "call"]
+    if not pairs:
+        return {"status": "ok", "counters": {"cyclic_cases_without_a_dependent_pair": 1}, "nontrivial": False}
+    a, b = rng.choice(pairs)
+    ir.deps.append((b, a))  # a is an ancestor of b: now a also waits for b
+    R = plainrun.execute(desc, record_args=False, ir=ir)
+    counters = {"cyclic_plans_run": 1, "cyclic_plans_rejected": int(R.exc is not None)}
+    res = {"status": "ok", "counters": counters, "nontrivial": True, "sig": hashlib.sha1(("\n".join(ir.describe(80)) + f"|cyc|{a}|{b}").encode()).hexdigest()[:16]}
+    if R.exc is None:
+        executed = set(R.H.attempts)
+        needed = set(calls)
+        res.update(status="violation", mechanism="execution-count", witness={"plan": ir.describe(80), "cycle_edge": [b, a]},
+                   detail=f"run on a plan with a dependency cycle (n{a} -> ... -> n{b} -> n{a}) returned normally having executed {sorted(executed)[:12]} of the "
+                          f"{len(needed)} calls its output needs (never executed: {sorted(needed - executed)[:12]})")
+    return res
 
 
 def preempt_oracle(R, ir):
@@ -77,6 +110,8 @@ def run_case(desc):
         return preempt.enumerate_case(desc, preempt_oracle)
     if desc.get("mode") == "preempt2":
         return preempt.enumerate_pairs(desc, preempt_oracle)
+    if desc.get("mode") == "cyclic":
+        return run_cyclic(desc)
     R = plainrun.execute(desc, record_args=False)
     ir, H = R.ir, R.H
     calls = set(ir.harness_calls())
